@@ -351,6 +351,9 @@ async fn run_admin(a: &Args, m: &mut mon::Mon) {
                     }
                 }
             }
+            if k % 100 == 60 && a.prop == "C18" {
+                admin::legacy_curve_migration(&mut w, m, &mut r, g).await;
+            }
             if k % 120 == 90 && a.prop == "C19" {
                 admin::fee_wallet_rotation(&mut w, m, &mut r, g).await;
             }
